@@ -204,13 +204,13 @@ func (fr *Frame) load(l *Loc) Term {
 		if fr.st.vol[l.Ref.S] {
 			base = fr.freshTyped("vol", l.Type)
 		} else {
-			arr := fr.R.Heap.Get(fr.st, boxComp(s), ArraySort(SInt, s))
+			arr := fr.R.Heap.Get(fr.st, boxComp(l.Type), ArraySort(SInt, s))
 			base = Select(arr, l.Ref, s)
 		}
 		baseType = l.Type
 	case LElem:
 		s := tm.SortOf(l.Type)
-		arr := fr.R.Heap.Get(fr.st, elemsComp(s), ArraySort(SInt, ArraySort(SInt, s)))
+		arr := fr.R.Heap.Get(fr.st, elemsComp(l.Type), ArraySort(SInt, ArraySort(SInt, s)))
 		base = Select(Select(arr, l.Ref, ArraySort(SInt, s)), l.Idx, s)
 		baseType = l.Type
 	case LGlobal:
@@ -238,7 +238,7 @@ func (fr *Frame) loadStruct(ref Term, t types.Type) Term {
 	tm := fr.R.TM
 	if fr.isOpaqueStruct(t) {
 		s := tm.SortOf(t)
-		arr := fr.R.Heap.Get(fr.st, boxComp(s), ArraySort(SInt, s))
+		arr := fr.R.Heap.Get(fr.st, boxComp(t), ArraySort(SInt, s))
 		return Select(arr, ref, s)
 	}
 	si := tm.Struct(t)
@@ -257,7 +257,7 @@ func (fr *Frame) storeStruct(ref Term, t types.Type, v Term) {
 	tm := fr.R.TM
 	if fr.isOpaqueStruct(t) {
 		s := tm.SortOf(t)
-		name := boxComp(s)
+		name := boxComp(t)
 		arr := fr.R.Heap.Get(fr.st, name, ArraySort(SInt, s))
 		fr.R.Heap.Set(fr.st, name, fr.define("h", Store(arr, ref, v)))
 		return
@@ -312,7 +312,7 @@ func (fr *Frame) store(l *Loc, v Term) {
 		h.Set(fr.st, name, fr.define("h", Store(arr, l.Ref, nv)))
 	case LBox:
 		s := tm.SortOf(l.Type)
-		name := boxComp(s)
+		name := boxComp(l.Type)
 		arr := h.Get(fr.st, name, ArraySort(SInt, s))
 		nv := v
 		if len(l.Path) > 0 {
@@ -321,12 +321,20 @@ func (fr *Frame) store(l *Loc, v Term) {
 		h.Set(fr.st, name, fr.define("h", Store(arr, l.Ref, nv)))
 	case LElem:
 		s := tm.SortOf(l.Type)
-		name := elemsComp(s)
+		name := elemsComp(l.Type)
 		arr := h.Get(fr.st, name, ArraySort(SInt, ArraySort(SInt, s)))
 		row := Select(arr, l.Ref, ArraySort(SInt, s))
 		nv := v
 		if len(l.Path) > 0 {
 			nv = fr.updPath(Select(row, l.Idx, s), l.Type, l.Path, v)
+		}
+		if s == SSlice {
+			// sums of element lengths over windows of this row change by the difference at this one position
+			oldRow := fr.define("row", row)
+			newRow := fr.define("row", Store(row, l.Idx, nv))
+			fr.sumPointUpdate(oldRow, newRow, l.Idx, nv)
+			h.Set(fr.st, name, fr.define("h", Store(arr, l.Ref, newRow)))
+			return
 		}
 		h.Set(fr.st, name, fr.define("h", Store(arr, l.Ref, Store(row, l.Idx, nv))))
 	case LGlobal:
@@ -398,7 +406,7 @@ func (fr *Frame) execInstr(in ssa.Instruction) {
 		case *types.Array:
 			// backing array: a row of the element store
 			es := tm.SortOf(u.Elem())
-			name := elemsComp(es)
+			name := elemsComp(u.Elem())
 			arr := fr.R.Heap.Get(fr.st, name, ArraySort(SInt, ArraySort(SInt, es)))
 			zero := T(fmt.Sprintf("((as const %s) %s)", ArraySort(SInt, es), tm.Zero(u.Elem()).S), ArraySort(SInt, es))
 			fr.R.Heap.Set(fr.st, name, fr.define("h", Store(arr, ref, zero)))
@@ -482,8 +490,8 @@ func (fr *Frame) execInstr(in ssa.Instruction) {
 	case *ssa.MakeMap:
 		ref := fr.alloc("map")
 		mt := types.Unalias(in.Type()).Underlying().(*types.Map)
-		ks, vs := tm.SortOf(mt.Key()), tm.SortOf(mt.Elem())
-		dn := mapDomComp(ks, vs)
+		ks := tm.SortOf(mt.Key())
+		dn := mapDomComp(mt)
 		dom := fr.R.Heap.Get(fr.st, dn, ArraySort(SInt, ArraySort(ks, SBool)))
 		empty := T(fmt.Sprintf("((as const %s) false)", ArraySort(ks, SBool)), ArraySort(ks, SBool))
 		fr.R.Heap.Set(fr.st, dn, fr.define("h", Store(dom, ref, empty)))
@@ -497,7 +505,7 @@ func (fr *Frame) execInstr(in ssa.Instruction) {
 		n := fr.termOf(fr.val(in.Len))
 		c := fr.termOf(fr.val(in.Cap))
 		fr.panicAt(in.Pos(), "makeslice-len", Or(Lt(n, IntLit(0)), Lt(c, n)))
-		name := elemsComp(es)
+		name := elemsComp(st.Elem())
 		arr := fr.R.Heap.Get(fr.st, name, ArraySort(SInt, ArraySort(SInt, es)))
 		zero := T(fmt.Sprintf("((as const %s) %s)", ArraySort(SInt, es), tm.Zero(st.Elem()).S), ArraySort(SInt, es))
 		fr.R.Heap.Set(fr.st, name, fr.define("h", Store(arr, ref, zero)))
@@ -877,7 +885,7 @@ func (fr *Frame) execConvert(in *ssa.Convert) {
 	case fs == SSlice && ts == SString:
 		// string(bytes): an uninterpreted function of the backing row and the window
 		es := fr.R.TM.SortOf(from.(*types.Slice).Elem())
-		arr := fr.R.Heap.Get(fr.st, elemsComp(es), ArraySort(SInt, ArraySort(SInt, es)))
+		arr := fr.R.Heap.Get(fr.st, elemsComp(from.(*types.Slice).Elem()), ArraySort(SInt, ArraySort(SInt, es)))
 		fr.R.Sc.DeclareFun("str.of.bytes", []Sort{ArraySort(SInt, es), SInt, SInt}, SString)
 		r := fr.define(in.Name(), app(SString, "str.of.bytes", Select(arr, app(SInt, "s-arr", x), ArraySort(SInt, es)), app(SInt, "s-off", x), app(SInt, "s-len", x)))
 		fr.assume(Eq(app(SInt, "str.len", r), app(SInt, "s-len", x)))
@@ -885,7 +893,7 @@ func (fr *Frame) execConvert(in *ssa.Convert) {
 	case fs == SString && ts == SSlice:
 		es := fr.R.TM.SortOf(to.(*types.Slice).Elem())
 		ref := fr.alloc("bytes")
-		name := elemsComp(es)
+		name := elemsComp(to.(*types.Slice).Elem())
 		arr := fr.R.Heap.Get(fr.st, name, ArraySort(SInt, ArraySort(SInt, es)))
 		row := fr.R.Sc.FreshConst("row", ArraySort(SInt, es))
 		fr.R.Heap.Set(fr.st, name, fr.define("h", Store(arr, ref, row)))
@@ -953,6 +961,18 @@ func (fr *Frame) execSlice(in *ssa.Slice) {
 			newCap = Sub(fr.termOf(fr.val(in.Max)), lo)
 		}
 		r := fr.define(in.Name(), app(SSlice, "mk-slice", app(SInt, "s-arr", s), Add(app(SInt, "s-off", s), lo), Sub(hi, lo), newCap))
+		if fr.R.TM.SortOf(u.Elem()) == SSlice {
+			es := SSlice
+			E := fr.R.Heap.Get(fr.st, elemsComp(u.Elem()), ArraySort(SInt, ArraySort(SInt, es)))
+			row := fr.define("row", Select(E, app(SInt, "s-arr", s), ArraySort(SInt, es)))
+			off := app(SInt, "s-off", s)
+			a, b, c, d := off, fr.define("sl.lo", Add(off, lo)), fr.define("sl.hi", Add(off, hi)), fr.define("sl.end", Add(off, app(SInt, "s-len", s)))
+			fr.sumSplit(row, a, b, d)
+			fr.sumSplit(row, b, c, d)
+			if lo.S == "1" {
+				fr.sumSingle(row, a)
+			}
+		}
 		fr.env[in] = TV(r)
 	case *types.Basic:
 		s := fr.termOf(x)
@@ -985,13 +1005,13 @@ func (fr *Frame) mapSorts(mt *types.Map) (ks, vs Sort) {
 }
 
 func (fr *Frame) mapDom(m Term, mt *types.Map) Term {
-	ks, vs := fr.mapSorts(mt)
-	return Select(fr.R.Heap.Get(fr.st, mapDomComp(ks, vs), ArraySort(SInt, ArraySort(ks, SBool))), m, ArraySort(ks, SBool))
+	ks, _ := fr.mapSorts(mt)
+	return Select(fr.R.Heap.Get(fr.st, mapDomComp(mt), ArraySort(SInt, ArraySort(ks, SBool))), m, ArraySort(ks, SBool))
 }
 
 func (fr *Frame) mapVals(m Term, mt *types.Map) Term {
 	ks, vs := fr.mapSorts(mt)
-	return Select(fr.R.Heap.Get(fr.st, mapValComp(ks, vs), ArraySort(SInt, ArraySort(ks, vs))), m, ArraySort(ks, vs))
+	return Select(fr.R.Heap.Get(fr.st, mapValComp(mt), ArraySort(SInt, ArraySort(ks, vs))), m, ArraySort(ks, vs))
 }
 
 func (fr *Frame) mapLen(m Term) Term {
@@ -1022,7 +1042,7 @@ func (fr *Frame) execLookup(in *ssa.Lookup) {
 func (fr *Frame) mapUpdate(m Term, mt *types.Map, k, v Term) {
 	ks, vs := fr.mapSorts(mt)
 	h := fr.R.Heap
-	dn, vn := mapDomComp(ks, vs), mapValComp(ks, vs)
+	dn, vn := mapDomComp(mt), mapValComp(mt)
 	domAll := h.Get(fr.st, dn, ArraySort(SInt, ArraySort(ks, SBool)))
 	valAll := h.Get(fr.st, vn, ArraySort(SInt, ArraySort(ks, vs)))
 	dom := Select(domAll, m, ArraySort(ks, SBool))
@@ -1034,9 +1054,9 @@ func (fr *Frame) mapUpdate(m Term, mt *types.Map, k, v Term) {
 }
 
 func (fr *Frame) mapDelete(m Term, mt *types.Map, k Term) {
-	ks, vs := fr.mapSorts(mt)
+	ks, _ := fr.mapSorts(mt)
 	h := fr.R.Heap
-	dn := mapDomComp(ks, vs)
+	dn := mapDomComp(mt)
 	domAll := h.Get(fr.st, dn, ArraySort(SInt, ArraySort(ks, SBool)))
 	dom := Select(domAll, m, ArraySort(ks, SBool))
 	was := fr.define("was", And(Not(Eq(m, Nil)), Select(dom, k, SBool)))
@@ -1081,4 +1101,25 @@ func (fr *Frame) convertStructTerm(x Term, from, to types.Type) Term {
 		args[i] = a
 	}
 	return app(Sort(tsi.Name), tsi.Ctor, args...)
+}
+
+// sumPointUpdate: trusted fact about sumlen (sum of s-len over a window of a row) under a one-element update.
+func (fr *Frame) sumPointUpdate(oldRow, newRow, idx, v Term) {
+	sc := fr.R.Sc
+	lo := fmt.Sprintf("lo?%d", sc.n)
+	hi := fmt.Sprintf("hi?%d", sc.n+1)
+	sc.n += 2
+	fr.R.Trusted["axioms of sumlen (sum of element lengths over a window): non-negative, empty window is 0, split, one-element update"] = true
+	sc.Assume(T(fmt.Sprintf("(forall ((%s Int) (%s Int)) (! (= (sumlen %s %s %s) (+ (sumlen %s %s %s) (ite (and (<= %s %s) (< %s %s)) (- (s-len %s) (s-len (select %s %s))) 0))) :pattern ((sumlen %s %s %s))))",
+		lo, hi, newRow.S, lo, hi, oldRow.S, lo, hi, lo, idx.S, idx.S, hi, v.S, oldRow.S, idx.S, newRow.S, lo, hi), SBool))
+}
+
+// sumSplit: sumlen(row, lo, hi) = sumlen(row, lo, m) + sumlen(row, m, hi) for lo <= m <= hi; single windows are s-len.
+func (fr *Frame) sumSplit(row, lo, m, hi Term) {
+	fr.R.Trusted["axioms of sumlen (sum of element lengths over a window): non-negative, empty window is 0, split, one-element update"] = true
+	fr.R.Sc.Assume(Implies(And(Le(lo, m), Le(m, hi)), Eq(app(SInt, "sumlen", row, lo, hi), Add(app(SInt, "sumlen", row, lo, m), app(SInt, "sumlen", row, m, hi)))))
+}
+
+func (fr *Frame) sumSingle(row, i Term) {
+	fr.R.Sc.Assume(Eq(app(SInt, "sumlen", row, i, Add(i, IntLit(1))), app(SInt, "s-len", Select(row, i, SSlice))))
 }
